@@ -1,8 +1,154 @@
-(* Props/C33.v -- placeholder while the correspondence is being brought up *)
-From Coq Require Import List Bool NArith ZArith.
-From MV Require Import Base.Bytes Model.Url.
+(* Props/C33.v -- Request URL, host, port and authority stay consistent.
+   Statements only.  Model/Url.v describes /repo WITH fixes/C33-hostport-brackets-ipv6.diff
+   (hostport brackets IPv6 literals).  ace/uenc are the punycode/nameprep parts of the idna codec;
+   every theorem quantifies over them, the correspondence instantiates them with CPython's answers.
+
+   Where the code violates the property there is a _refuted theorem with a computed witness and the
+   positive theorem carries the complementary guard:
+     - IDN hosts (host stored non-ASCII): C33_refuted_idn / C33_idn_host_not_reassignable /
+       C33_unicode_url_rejected; guard = all_ascii host (inside wf_dest: forallb host_char).
+     - port 0: C33_refuted_port_zero; guard = 1 <= port (wf_port).
+     - IPv6 literal with trailing dot reached through a bracketed userinfo: C33_refuted_ipv6_trailing_dot;
+       guard = check_bracketed_host host (wf_br). *)
+From Coq Require Import List Bool NArith ZArith Strings.String.
+From MV Require Import Base.Bytes Model.Url Proofs.UrlParse Proofs.UrlRequest Proofs.UrlDest Proofs.UrlC33.
 Import ListNotations.
 
-Theorem C33_placeholder : default_port s_http = Some 80%Z.
-Proof. reflexivity. Qed.
-Print Assumptions C33_placeholder.
+(* url.parse reads back exactly the components url.unparse was given, for every well-formed
+   http(s) destination (names, IPv4, bracketed IPv6/IPvFuture literals, ports 1-65535, any normal path). *)
+Theorem C33_parse_unparse : forall ace uenc s h p path,
+  wf_dest ace s h p -> wf_path path ->
+  parse ace uenc (unparse s h p path) = Some (s, h, p, path).
+Proof. exact parse_unparse. Qed.
+Print Assumptions C33_parse_unparse.
+
+(* Assigning such a URL to any request: scheme, host, port, path read back, Request.url reads back the
+   same URL, Host header and authority are consistent, and assigning the URL read back changes nothing. *)
+Theorem C33_url_roundtrip : forall ace uenc r s h p path,
+  r_connect r = false -> wf_dest ace s h p -> wf_path path -> idna_decode ace h = Some h ->
+  exists r1, set_url ace uenc r (unparse s h p path) = (r1, true)
+    /\ r_scheme r1 = s /\ r_host r1 = h /\ r_port r1 = p /\ r_path r1 = path
+    /\ get_url r1 = unparse s h p path
+    /\ consistent uenc r1
+    /\ set_url ace uenc r1 (get_url r1) = (r1, true).
+Proof. exact url_roundtrip. Qed.
+Print Assumptions C33_url_roundtrip.
+
+(* Any consistent request whose destination and path are well-formed is a fixpoint of
+   url := url (in particular every request produced by a url assignment that reads back such values). *)
+Theorem C33_url_fixpoint : forall ace uenc r,
+  consistent uenc r -> r_connect r = false ->
+  wf_dest ace (r_scheme r) (r_host r) (r_port r) -> wf_path (r_path r) ->
+  idna_decode ace (r_host r) = Some (r_host r) ->
+  set_url ace uenc r (get_url r) = (r, true).
+Proof. exact url_fixpoint. Qed.
+Print Assumptions C33_url_fixpoint.
+
+(* Every successful url/host/port edit leaves an existing Host header equal to the single value
+   hostport(scheme, host, port) and a non-empty authority equal to its encoding, whatever came before. *)
+Theorem C33_edit_consistent : forall ace uenc r o r1,
+  step ace uenc r o = (r1, true) -> consistent uenc r1.
+Proof. exact step_ok_consistent. Qed.
+Print Assumptions C33_edit_consistent.
+
+(* ... and this is an invariant of arbitrary edit histories (failed edits assign nothing). *)
+Theorem C33_history_consistent : forall ace uenc ops r,
+  consistent uenc r -> consistent uenc (run ace uenc r ops).
+Proof. exact run_consistent. Qed.
+Print Assumptions C33_history_consistent.
+
+Theorem C33_history_after_successful_edit : forall ace uenc ops1 o ops2 r,
+  snd (step ace uenc (run ace uenc r ops1) o) = true ->
+  consistent uenc (run ace uenc r (ops1 ++ o :: ops2)).
+Proof. exact run_last_ok_consistent. Qed.
+Print Assumptions C33_history_after_successful_edit.
+
+(* What hostport writes is parsed back by parse_authority(check=True) as the destination:
+   the host, and the port unless it is the default of the scheme (IPv6 literals included). *)
+Theorem C33_hostport_denotes_destination : forall ace uenc s h p,
+  all_ascii h = true -> h <> [] -> is_valid_host_s ace uenc h = true ->
+  starts_with [cLBR] h = false -> mem cLF h = false -> (0 <= p <= 65535)%Z ->
+  parse_authority ace uenc (hostport s h p) = PA_ok h (shown_port s p).
+Proof. exact hostport_denotes_destination. Qed.
+Print Assumptions C33_hostport_denotes_destination.
+
+(* After any successful edit an existing Host header (HTTP/1) points at the new destination. *)
+Theorem C33_edit_host_header_http1 : forall ace uenc r o r1,
+  step ace uenc r o = (r1, true) ->
+  r_h2 r1 = false -> has_header s_Host (r_headers r1) = true ->
+  dest_ok ace uenc (r_host r1) (r_port r1) ->
+  exists a, host_header ace r1 = Some a
+    /\ get_all s_Host (r_headers r1) = [a]
+    /\ parse_authority ace uenc a = PA_ok (r_host r1) (shown_port (r_scheme r1) (r_port r1)).
+Proof. exact edit_host_header_http1. Qed.
+Print Assumptions C33_edit_host_header_http1.
+
+(* The same for the authority of HTTP/2 and HTTP/3 requests. *)
+Theorem C33_edit_authority_http2 : forall ace uenc r o r1,
+  step ace uenc r o = (r1, true) ->
+  r_h2 r1 = true -> r_authority r1 <> [] ->
+  dest_ok ace uenc (r_host r1) (r_port r1) ->
+  idna_decode ace (dest_text r1) = Some (dest_text r1) ->
+  r_authority r1 = dest_text r1
+  /\ host_header ace r1 = Some (dest_text r1)
+  /\ parse_authority ace uenc (dest_text r1) = PA_ok (r_host r1) (shown_port (r_scheme r1) (r_port r1)).
+Proof. exact edit_authority_http2. Qed.
+Print Assumptions C33_edit_authority_http2.
+
+(* ----- refuted parts of the property (known findings) ----- *)
+
+(* IDN: with the codec fact xn--bcher-kva -> buecher, assigning http://xn--bcher-kva.de/ succeeds, the
+   host and url read back in Unicode, and assigning that url again raises ValueError. *)
+Theorem C33_refuted_idn :
+  let '(r1, ok) := set_url ace0 uenc0 req0 (S "http://xn--bcher-kva.de/") in
+  ok = true /\ r_host r1 = bucher ++ S ".de" /\ get_url r1 = S "http://" ++ bucher ++ S ".de/"
+  /\ set_url ace0 uenc0 r1 (get_url r1) = (r1, false).
+Proof. exact idn_witness. Qed.
+Print Assumptions C33_refuted_idn.
+
+(* ... for every codec and every request whose host is stored non-ASCII. *)
+Theorem C33_idn_host_not_reassignable : forall ace uenc r,
+  all_ascii (r_host r) = false -> r_connect r = false ->
+  set_url ace uenc r (get_url r) = (r, false).
+Proof. exact idn_host_not_reassignable. Qed.
+Print Assumptions C33_idn_host_not_reassignable.
+
+(* A URL that spells its IDN host (or anything else) in non-ASCII is rejected outright. *)
+Theorem C33_unicode_url_rejected : forall ace uenc r u,
+  all_ascii u = false -> set_url ace uenc r u = (r, false).
+Proof. exact non_ascii_url_rejected. Qed.
+Print Assumptions C33_unicode_url_rejected.
+
+(* Port 0 is accepted and silently replaced by the default port. *)
+Theorem C33_refuted_port_zero : forall ace uenc,
+  parse ace uenc (S "http://example.com:0/") = Some (s_http, S "example.com", 80%Z, S "/")
+  /\ get_url (fst (set_url ace uenc req0 (S "http://example.com:0/"))) = S "http://example.com/".
+Proof. exact port_zero_witness. Qed.
+Print Assumptions C33_refuted_port_zero.
+
+(* An accepted URL whose read-back cannot be assigned again: host ::1. (IPv6 literal plus dot). *)
+Theorem C33_refuted_ipv6_trailing_dot : forall ace uenc,
+  let '(r1, ok) := set_url ace uenc req0 (S "http://[::1]@[::1.]/") in
+  ok = true /\ r_host r1 = S "::1." /\ get_url r1 = S "http://[::1.]/"
+  /\ set_url ace uenc r1 (get_url r1) = (r1, false).
+Proof. exact ipv6_trailing_dot_witness. Qed.
+Print Assumptions C33_refuted_ipv6_trailing_dot.
+
+(* Why the repair is needed: host:port written verbatim is not an authority for IPv6 hosts. *)
+Theorem C33_unrepaired_hostport_refuted : forall ace uenc,
+  parse_authority ace uenc (hostport_unrepaired s_http (S "::1") 8080) = PA_err
+  /\ parse_authority ace uenc (hostport s_http (S "::1") 8080) = PA_ok (S "::1") (Some 8080%Z).
+Proof. exact unrepaired_ipv6_witness. Qed.
+Print Assumptions C33_unrepaired_hostport_refuted.
+
+(* The hypotheses are satisfiable on an IPv6 destination with a non-default port and a path with
+   params, query and fragment; a host edit rewrites Host header and authority to [::1]:8080. *)
+Theorem C33_nonvacuous : forall ace uenc,
+  wf_dest ace s_http (S "::1") 8080 /\ wf_path (S "/a;b/c;d?x=1#f")
+  /\ idna_decode ace (S "::1") = Some (S "::1")
+  /\ unparse s_http (S "::1") 8080 (S "/a;b/c;d?x=1#f") = S "http://[::1]:8080/a;b/c;d?x=1#f"
+  /\ dest_ok ace uenc (S "::1") 8080
+  /\ fst (step ace uenc req0 (SetHost (S "::1")))
+     = mkReq s_http (S "::1") 8080 (S "/") (S "[::1]:8080") [(s_Host, S "[::1]:8080")] false false.
+Proof. exact nonvacuous. Qed.
+Print Assumptions C33_nonvacuous.
